@@ -60,6 +60,8 @@ TRICKY = ["&", "<", ">", "a&b", "x<y", "-->", "&amp;", "&lt;", "♪", "café", "
           "</tt>", "WEBVTT", "<sami>", "1", "00:00:01,000 --> 00:00:02,000"]
 LANGS = ["en-US", "fr-cc", "de-DE", "es", "en", "fr", "de", "it", "pt-BR", "ja", "ko", "zh", "ru", "nl",
          "sv", "pl", "tr", "he", "ar", "en-GB"]
+# language keys are free-form strings in the model; these are legal but unusual ones
+ODD_LANGS = ["pt_BR.utf8", "en us", "1st", "x-klingon!", "EN-us", "zh-Hant-TW", "és"]
 SAMI_CLASSES = ["ENCC", "FRCC", "DECC", "ESCC", "ITCC", "PTCC", "JACC", "KOCC", "ZHCC", "RUCC",
                 "NLCC", "SVCC", "PLCC", "TRCC", "HECC", "ARCC", "GBCC", "USCC", "XXCC", "YYCC"]
 
@@ -628,7 +630,8 @@ def gen_recipe(rng, abs_units=None, unbalanced=None, nlangs=None, scc_safe=False
         layouts = [gen_layout(rng, False)] + layouts[:-1] + [gen_layout(rng, True)]
     style_mode = rng.choice(["default", "mixed", "mixed"])
     langs = []
-    for lang in rng.sample(LANGS, nlangs):
+    pool = LANGS if rng.random() < 0.8 else LANGS[:4] + ODD_LANGS
+    for lang in rng.sample(pool, nlangs):
         caps = [gen_caption(rng, s, e, layouts, unbalanced, style_mode, scc_safe)
                 for (s, e) in _times(rng, rng.randint(1, 4), same=0.2)]
         langs.append({"lang": lang, "captions": caps,
